@@ -18,8 +18,17 @@
     The numeric bound is checked by computation for strictly sequential churn (below: three
     threads one after the other use ONE node) and by the correspondence oracle; the literal
     "<= peak number of live threads" is false of the code (known finding D7: a writer inside a
-    cooling node forces a new node), see known_findings.txt. *)
-From ASModel Require Import Base State Orderings_gen Step Run Progress Hist Inv InvTl InvProto InvStep.
+    cooling node forces a new node), see known_findings.txt. 
+    Also over all schedules ([Gen], under [GenBound] and no [set_generation]): the [active_writers]
+    word of every node equals the number of frames holding a reservation in it, no node is ever
+    marked UNUSED (since the D8 fix a node leaves cooldown straight into USED, taken by the thread
+    that then checks the writers), and a node changes owner only when no writer is inside it
+    ([C11_reservations]); [C11_every_state] gives the whole master invariant in every state of a
+    run within [RunOK].
+*)
+From ASModel Require Import Base State Orderings_gen Step Run Progress Hist Local Inv InvTl InvProto InvStep Sum StepCases.
+From ASModel Require Import GenDefs Gen1 Gen2 Gen EnvDefs Env4 Env AccDefs Acc1 Acc2 Acc3 Acc4 Acc5 Acc6 Acc7 Acc.
+From ASModel Require Import ProtDefs Prot1 Prot11 Prot16 Prot Typed LinDefs Lin2 Lin Safe1 Safe2 Safe7 Safe8 Safe Main.
 
 Theorem C11_exclusive :
   forall cf inits progs sched,
@@ -69,9 +78,27 @@ Example C11_sequential_churn_one_node :
   t_status (thr ex_final 0) = Exited /\ t_status (thr ex_final 1) = Exited /\ t_status (thr ex_final 2) = Exited.
 Proof. vm_compute. repeat split; reflexivity. Qed.
 
+Theorem C11_reservations : forall cf inits progs sched,
+  (forall p, In p progs -> forall g, ~ In (CSetGen g) p) ->
+  (forall k, GenBound (run_state cf (init_state inits progs) (firstn k sched))) ->
+  NoFault (run_state cf (init_state inits progs) sched) ->
+  let s := run_state cf (init_state inits progs) sched in
+  W_inv s /\ NoUnused s.
+Proof.
+  intros cf inits progs sched H1 H2 H3 s.
+  pose proof (run_GenInv_bound cf inits progs sched H1 H2 H3) as G.
+  destruct G as [_ _ G]. split; [exact (g_w _ G)|exact (g_nu _ G)].
+Qed.
+
+Theorem C11_every_state : forall cf inits progs sched,
+  RunOK cf inits progs sched -> forall k, Master (St cf (init_state inits progs) sched k).
+Proof. exact RunOK_Master. Qed.
+
 Print Assumptions C11_exclusive.
 Print Assumptions C11_ownership_transitions.
 Print Assumptions C11_thread_local.
 Print Assumptions C11_interference_free.
 Print Assumptions C11_tables.
 Print Assumptions C11_sequential_churn_one_node.
+Print Assumptions C11_reservations.
+Print Assumptions C11_every_state.
